@@ -1,4 +1,5 @@
 import UtilModel.Keyed.Props
+import UtilModel.Keyed.Transfer
 open UtilModel UtilModel.Keyed
 #print axioms UtilModel.accepts_sound
 #print axioms UtilModel.accepted_satisfies
@@ -22,3 +23,6 @@ open UtilModel UtilModel.Keyed
 #print axioms UtilModel.Keyed.ret_sound
 #print axioms UtilModel.Keyed.C06_obs
 #print axioms UtilModel.Keyed.C06_reset_conds
+#print axioms UtilModel.Keyed.C06_accepted
+#print axioms UtilModel.Keyed.complete_keyed
+#print axioms UtilModel.Keyed.reject_sound_keyed
